@@ -20,7 +20,7 @@ theorem keyOf_ne_own_of_ne {v v' : Nat} (f' : Filter) (h : v' ≠ v) : keyOf v' 
 theorem popCount_zero (off n : Nat) : popCount 0 off n = 0 := popCount_zero_of 0 off n (fun _ _ => by simp)
 
 omit [DecidableEq ι] in
-theorem viewOK_fresh_owned (nb nh seed : Nat) (hnh : 1 ≤ nh) :
+theorem viewOK_fresh_owned (nb nh seed : Nat) (hnh : KOK (mkOwned nb nh seed)) :
     ViewOK P hf 0 (⟨[], 0, false⟩ : SInfo ι) (mkOwned nb nh seed) ⟨[], true, 0⟩ := by
   refine ⟨fun _ => rfl, ?_, fun _ => hnh, ?_, Covers.nil _ _ _ _, ?_, ?_, ?_, ?_, fun _ _ => rfl, ?_⟩
   · intro h; cases h
@@ -98,7 +98,7 @@ theorem good_new (w : World) (p : PGhost ι) (hg : Good P hf w p) (v nb nh seed 
     simp only [hb', Bool.false_eq_true, if_false, if_true]
     exact good_bind_owned P hf w p hg v _ 0 rfl _ _
       (fwf_mkOwned P _ _ _ hb' hsmall (Nat.mod_lt _ (by decide)) (Nat.mod_lt _ (by decide)))
-      (viewOK_fresh_owned P hf _ _ _ (nh_pos_of_not_bad P _ _ hb'))
+      (viewOK_fresh_owned P hf _ _ _ ⟨nh_pos_of_not_bad P _ _ hb', by simp only [mkOwned, roundUp64]; omega⟩)
 
 omit [DecidableEq ι] in
 /-- for an owned filter only the recorded list of its state matters -/
